@@ -258,6 +258,10 @@ def run(tier, seed, rng):
             for fn in ('allreduce', 'allreduce_avg', 'allreduce_avg_raw', 'broadcast', 'allreduce_bucketed', 'allreduce_bucketed_avg_raw'):
                 for dt in ('float32', 'float64'):
                     vcases.append({'kind': 'sym_vs_dense', 'W': W, 'n': n, 'fn': fn, 'dtype': dt})
+            if W >= 3:
+                # a sub-group that does not contain rank 0: the source's global rank differs from its index in the group
+                for src in (1, W - 1):
+                    vcases.append({'kind': 'sym_vs_dense', 'W': W, 'n': n, 'fn': 'broadcast_sub', 'dtype': 'float32', 'src': src})
     for k, case in enumerate(vcases):
         W, n, fn = case['W'], case['n'], case['fn']
         dt = getattr(torch, case['dtype'])
@@ -284,6 +288,11 @@ def run(tier, seed, rng):
                 comm.flush_allreduce_buckets()
             elif fn == 'broadcast':
                 r = comm.broadcast(t, src=W - 1, symmetric=sym)
+            elif fn == 'broadcast_sub':
+                grp = torch.distributed.new_group(list(range(1, W)))
+                if rank == 0:
+                    return None
+                r = comm.broadcast(t, src=case['src'], group=grp, symmetric=sym)
             else:
                 r = comm.allreduce_bucketed(t, symmetric=sym)
                 comm.flush_allreduce_buckets()
